@@ -103,6 +103,19 @@ def statements(s, ms):
         out["record_map_value_out"] = (tv.convert_records(RecordMap(blocks_out=rv)), [], [u])
         tvi = TableDescription(table_name="d", column_names=["k", "key", "value"])
         out["record_map_value_in"] = (tvi.convert_records(RecordMap(blocks_in=rv)), [], [u])
+        # the NAME of a control-table key / value column (a column of the block form)
+        rc_ = RecordSpecification(pandas.DataFrame({u: ["ka", "kb"], "value": ["va", "vb"]}), record_keys=["k"],
+                                  control_table_keys=[u])
+        out["record_map_keycol_out"] = (TableDescription(table_name="d", column_names=["k", "va", "vb"]).convert_records(RecordMap(blocks_out=rc_)),
+                                        [], [u])
+        out["record_map_keycol_in"] = (TableDescription(table_name="d", column_names=["k", u, "value"]).convert_records(RecordMap(blocks_in=rc_)),
+                                       [], [u])
+        rw = RecordSpecification(pandas.DataFrame({"key": ["ka", "kb"], u: ["va", "vb"]}), record_keys=["k"],
+                                 control_table_keys=["key"])
+        out["record_map_valcol_out"] = (TableDescription(table_name="d", column_names=["k", "va", "vb"]).convert_records(RecordMap(blocks_out=rw)),
+                                        [], [u])
+        out["record_map_valcol_in"] = (TableDescription(table_name="d", column_names=["k", "key", u]).convert_records(RecordMap(blocks_in=rw)),
+                                       [], [u])
         return out
     good = pipes("u")
     try:
@@ -113,7 +126,8 @@ def statements(s, ms):
     for pos in good:
         for d, m in ms.items():
             idq = m.identifier_quote
-            if pos in ("column_name", "table_name", "record_map_value_out", "record_map_value_in") and (idq in s or len(s) == 0):
+            if pos in ("column_name", "table_name", "record_map_value_out", "record_map_value_in", "record_map_keycol_out",
+                       "record_map_keycol_in", "record_map_valcol_out", "record_map_valcol_in") and (idq in s or len(s) == 0):
                 continue          # outside the property: names containing the identifier quote
             for annotate in (True, False):
                 opt = SQLFormatOptions(annotate=annotate, warn_on_method_support=False, warn_on_novel_methods=False)
@@ -145,9 +159,11 @@ def execute_checks(s, vd, stats):
                 ("condition", t.extend({"m": Value(s)}).select_rows("m == k"), lambda r: list(r["k"]) == [s]),
                 ("concat_label", t.concat_rows(b=t, id_column="src", a_name=s, b_name="other"),
                  lambda r: sorted(set(r["src"])) == sorted({s, "other"}))):
-            for dialect, sql in (("sqlite", h.db_model.to_sql(ops)), ("pg", pg.to_sql(ops))):
+            for dialect, model in (("sqlite", h.db_model), ("pg", pg)):
                 stats["executed"] += 1
+                sql = None
                 try:
+                    sql = model.to_sql(ops)      # a generator that refuses a legal literal has not carried it
                     r = h.read_query(sql)
                     ok = want(r)
                     why = "value read back differs: %r" % (r.to_dict(orient="list"),)
@@ -161,9 +177,11 @@ def execute_checks(s, vd, stats):
             h.insert_table(dc, table_name="dc", allow_overwrite=True)
             tc = TableDescription(table_name="dc", column_names=[s, "k"])
             ops = tc.extend({"z": tc.column_map()[s]})
-            for dialect, sql in (("sqlite", h.db_model.to_sql(ops)), ("pg", pg.to_sql(ops))):
+            for dialect, model in (("sqlite", h.db_model), ("pg", pg)):
                 stats["executed"] += 1
+                sql = None
                 try:
+                    sql = model.to_sql(ops)      # the name holds no identifier quote: it is a legal identifier
                     r = h.read_query(sql)
                     ok = s in list(r.columns) and list(r["z"]) == [1.0, 2.0]
                     why = "columns %r" % (list(r.columns),)
